@@ -91,6 +91,10 @@ def run(ck):
                             perm = ("advcomp", T.app("mod", T.sym(isym[0]) + c, T.sym("nv")), ("range", T.ZERO, T.sym("nv"), T.ONE))
                             b = T.app("index", x, (("slice", None, None, None), perm))
                             want = T.app("sum", x * b, (-1,)) * T.inv(T.sym("nv"))
+                        if t != want:
+                            # one normal form for "the sites s(i), i in range(n)" however they are selected (a slice, a list of
+                            # site numbers built by a comprehension or list(range(..)))
+                            t, want = _site_gather_normal(t), _site_gather_normal(want)
                         if t == want:
                             ck.ok("C08.R3", inst + ":pairs (i, i+c)/L", asite, got=t)
                         else:
@@ -163,7 +167,46 @@ def run(ck):
 
             check_history(ck, "C08.R5", "%s/%s" % (oname, cls), prog.method(oname.split("/")[0], "apply").site(), mk,
                           lambda it, c: call(it, c[1], "apply", c[0], c[2]), max_paths=40)
-    ck.require_min("C08.R5", 12)
+    # ... and independence of OTHER observables of the same class: an interaction with distance c2 evaluated after one with
+    # distance c1 (same chain length) is its own operator - its value depends on its own c, boundary condition and nothing of
+    # the first one
+    ni_site = prog.method("NeighbourInteraction", "apply").site()
+    for per1, per2 in ((False, False), (True, True), (False, True)):
+        inst = "NeighbourInteraction(%s, c2) after NeighbourInteraction(%s, c1)" % ("periodic" if per2 else "open", "periodic" if per1 else "open")
+        with ck.guard("C08.R5", inst, ni_site):
+            def th2(it, per1=per1, per2=per2):
+                cls_ = prog.cls("NeighbourInteraction")
+                st_ = make_state(it, "PositiveWaveFunction")
+                o1 = it.instantiate(cls_, [], {"periodic_bcs": VConst(per1), "c": VNum("int", T.sym("c1"), pos=True)}, None)
+                o2 = it.instantiate(cls_, [], {"periodic_bcs": VConst(per2), "c": VNum("int", T.sym("c2"), pos=True)}, None)
+                x = tens(it, "samples", ("B", "nv"))
+                call(it, o1, "apply", st_, x)
+                return call(it, o2, "apply", st_, x)
+
+            for p in [q for q in paths_of(prog, th2, max_paths=12, sticky=True) if q.outcome == "return"]:
+                tb = getattr(p.value, "term", None)
+                if tb is None:
+                    ck.undecided("C08.R5", inst, ni_site, "the result is not a term")
+                    continue
+                xs_ = 2 * T.sym("samples") - 1
+                c2_, nv_, i_ = T.sym("c2"), T.sym("nv"), T.sym("i")
+                full = ("slice", None, None, None)
+                if per2:
+                    w_ = T.app("sum", xs_ * T.app("index", xs_, (full, ("advcomp", T.app("mod", i_ + c2_, nv_), ("range", T.ZERO, nv_, T.ONE)))), (-1,)) * T.inv(nv_)
+                else:
+                    w_ = T.app("sum", T.app("index", xs_, (full, ("slice", None, -c2_, None))) * T.app("index", xs_, (full, ("slice", c2_, None, None))), (-1,)) * T.inv(nv_)
+                na, nb_ = _site_gather_normal(w_), _site_gather_normal(tb)
+                if na == nb_:
+                    ck.ok("C08.R5", inst, ni_site)
+                elif "c1" in nb_.syms():
+                    ck.violation("C08.R5", inst, ni_site, "the value of the second interaction (distance c2) depends on the distance c1 of an interaction that was evaluated before it: "
+                                 "pairs computed for one instance are reused for another (a table shared by all instances, keyed by the chain length only)", key="C08.R5|NeighbourInteraction|pairs of another instance")
+                elif per1 != per2 and "c2" not in nb_.syms():
+                    ck.violation("C08.R5", inst, ni_site, "the %s interaction evaluated after %s one of the same chain length does not depend on its own distance c2: %s" % ("periodic" if per2 else "open", "an open" if not per1 else "a periodic", str(nb_)[:160]),
+                                 key="C08.R5|NeighbourInteraction|pairs of another instance")
+                else:
+                    ck.undecided("C08.R5", inst, ni_site, "the second interaction's value differs from its value alone in a way that is not classified")
+    ck.require_min("C08.R5", 15)
     ck.require_min("C08.R1", 50)
     ck.require_min("C08.R2", 48)
     ck.require_min("C08.R3", 40)
@@ -319,6 +362,54 @@ def _check_flip_estimator(ck, inst, asite, p, cls, ocls, absolute):
         ck.violation("C08.R3", inst + ":sum/denominator/nsites", asite, "the result depends on %s; expected %s" % (sorted(got.syms()), sorted(want.syms())))
     else:
         ck.undecided("C08.R3", inst + ":sum/denominator/nsites", asite, "final normalisation not recognised: %r" % (got,))
+
+
+def _site_gather_normal(term):
+    """x[:, <sites>] with the sites given as a slice or as a list [s(i) for i in range(n)]: rewritten to the gather
+    ('advcomp', s(i), range(0, n)) with the loop symbol 'i' and n a polynomial in nv and the slice bounds."""
+    if term is None:
+        return None
+    nv, i = T.sym("nv"), T.sym("i")
+
+    def neg(p):
+        return hasattr(p, "terms") and p.terms and all(c < 0 for c in p.terms.values()) and "nv" not in p.syms()
+
+    def as_poly(v):
+        return v if isinstance(v, T.Poly) else (T.const(v) if isinstance(v, int) else None)
+
+    def strip_max0(p):
+        a = p.single_atom() if hasattr(p, "single_atom") else None
+        if isinstance(a, T.App) and a.op == "max" and len(a.args) == 2 and any(hasattr(z, "is_zero") and z.is_zero() for z in a.args):
+            return [z for z in a.args if not z.is_zero()][0]
+        return p
+
+    def fn(a):
+        if not (isinstance(a, T.App) and a.op == "index" and len(a.args[1]) == 2 and tuple(a.args[1][0]) == ("slice", None, None, None)):
+            return None
+        sp = a.args[1][1]
+        if isinstance(sp, tuple) and sp and sp[0] == "slice" and sp[3] in (None, 1):
+            lo = T.ZERO if sp[1] is None else as_poly(sp[1])
+            hi = nv if sp[2] is None else as_poly(sp[2])
+            if lo is None or hi is None:
+                return None
+            lo = nv + lo if neg(lo) else lo
+            hi = nv + hi if neg(hi) else hi
+            if lo.is_zero() and hi == nv:
+                return a.args[0]
+            return T.app("index", a.args[0], (("slice", None, None, None), ("advcomp", i + lo, ("range", T.ZERO, hi - lo, T.ONE))))
+        if isinstance(sp, tuple) and sp and sp[0] == "advcomp" and len(sp) == 3 and isinstance(sp[2], tuple) and sp[2] and sp[2][0] == "range" and sp[2][1] == T.ZERO and sp[2][3] == T.ONE and sp[1] is not None:
+            el = sp[1]
+            m = {s_: "i" for s_ in el.syms() if s_.startswith("i@")}
+            if len(m) > 1:
+                return None
+            el = T.rename_syms(el, m) if m else el
+            stop = strip_max0(sp[2][2])
+            if el == i and stop == nv:
+                return a.args[0]  # every site, in order: the tensor itself
+            return T.app("index", a.args[0], (("slice", None, None, None), ("advcomp", el, ("range", T.ZERO, stop, T.ONE))))
+        return None
+
+    return T.subst(term, fn)
 
 
 def _diag_zz(ck, inst, asite, got, want):
